@@ -82,8 +82,9 @@ struct Model {
     finish_calls: u64,
     refused: bool,
     suspended: bool,
-    /// end of the input as fixed by the first Finish call: once Finish has been requested the
-    /// caller may only re-offer what that call left unconsumed (zlib's rule: "no more input data")
+    /// end of the input as fixed by the Finish calls so far: once Finish has been requested the
+    /// caller may only re-offer what that call left unconsumed (zlib's rule: "no more input data");
+    /// a later Finish call that offers less moves the end further down
     limit: Option<usize>,
 }
 
@@ -155,9 +156,9 @@ fn step(c: &mut CompressorOxide, m: &mut Model, x: &[u8], zl: bool, call: Call, 
     }
     if call.flush == 4 {
         m.finishing = true;
-        if m.limit.is_none() {
-            m.limit = Some(m.pos - res.bytes_consumed + take);
-        }
+        // every Finish call declares "the input ends with what I offer now" (never more than an
+        // earlier Finish call offered: `take` is already clamped by the previous limit)
+        m.limit = Some(m.pos - res.bytes_consumed + take);
         m.finish_calls += 1;
         vensure!(m.ended || res.bytes_written == osz, "c14:finish-returned-early", "Finish returned {:?} with only {} of {osz} output bytes used", res.status, res.bytes_written);
     }
